@@ -698,14 +698,6 @@ Proof.
   repeat split; assumption.
 Qed.
 
-(* sysloginput's composite parser with extractions that keep every record unchanged is the parser *)
-Lemma composite_passthrough_lemma : forall extract cfg cnt input,
-  (forall r, extract r = Some r) -> composite_parse extract cfg cnt input = parse cfg cnt input.
-Proof.
-  intros extract cfg cnt input H. unfold composite_parse.
-  destruct (parse cfg cnt input) as [[[r|]|e|s] c]; try reflexivity. rewrite H. reflexivity.
-Qed.
-
 (* example: the line of the package's own unit test *)
 Definition example_header : header :=
   {| h_time := [50;48;49;57;45;48;56;45;49;53;84;49;53;58;53;48;58;52;54;46;56;54;54;57;49;53;43;48;51;58;48;48];
